@@ -425,12 +425,12 @@ def r8_metadata_grammar(ctx, rep):
 
 
 RULES = [
-    RuleSpec("C15.R4", r4_path_rooting, "relative paths are rooted at the project file's directory", floor=4),
-    RuleSpec("C15.R8", r8_metadata_grammar, "markdown metadata grammar: key lines vs continuation lines", floor=4),
-    RuleSpec("C15.R1", r1_stale_derived, "no stale derived state after post-construction assignment", floor=8),
-    RuleSpec("C15.R2", r2_conversion, "conversion is exhaustive and table-consistent", floor=60),
-    RuleSpec("C15.R3", r3_rejections_name_option, "rejections name the option", floor=4),
-    RuleSpec("C15.R5", r5_unknown_keys, "unknown keys are reported, not fatal", floor=3),
-    RuleSpec("C15.R6", r6_precedence, "precedence file < --config < CLI", floor=8),
+    RuleSpec("C15.R4", r4_path_rooting, "relative paths are rooted at the project file's directory", floor=2),
+    RuleSpec("C15.R8", r8_metadata_grammar, "markdown metadata grammar: key lines vs continuation lines", floor=2),
+    RuleSpec("C15.R1", r1_stale_derived, "no stale derived state after post-construction assignment", floor=7),
+    RuleSpec("C15.R2", r2_conversion, "conversion is exhaustive and table-consistent", floor=52),
+    RuleSpec("C15.R3", r3_rejections_name_option, "rejections name the option", floor=2),
+    RuleSpec("C15.R5", r5_unknown_keys, "unknown keys are reported, not fatal", floor=1),
+    RuleSpec("C15.R6", r6_precedence, "precedence file < --config < CLI", floor=6),
     RuleSpec("C15.R7", r7_schema_only_writes, "only schema fields are written onto the settings object", floor=1),
 ]
